@@ -14,6 +14,9 @@ SPECIAL = ["note " * 80, ("Traceback: " + "x" * 300 + ")\nM3 S1"), "a\x0bG1 X9",
            # compatibility forms of the delimiters (a normalisation step after sanitising would fold them back to ASCII)
            "done\uff09 M112", "a\ufe5a G1 X9", "a\u207e M3 S1", "a\uff3d G1 X9", "a\uff1e G1 X9", "a\uff02 G1 X9", "a\uff07 G1 X9", "a\uff0a\uff0f M3 S1",
            "a\uff1b G1 X9", "\uff08a", "\u2474 G1 X9", "e\u0301", "\u00e9", "\ufb01"]
+# texts that cannot be encoded as UTF-8 (lone surrogates, as os.fsdecode produces them for odd file names): the call may refuse
+# them, but whatever it writes must not execute anything else
+UNENCODABLE = ["jobs/*\udcff/ M112 /* part.stl", "a*\ud800/ M3 S1", "a\udcff b", "a)\udcff M3 S1", "a\udc0aG1 X9", "\udcff"]
 STYLES = [";", "#", "//", "(", "[", "/*", '"', "'", "<"]
 
 ENTRIES = {
@@ -90,6 +93,13 @@ def _work(item):
         exc, raw = run_case(style, entry, text, first_style)
         n += 1
         outcomes.add(digest(raw))
+        if exc is not None and exc0 is None and text in UNENCODABLE:
+            # refused: what was written before the refusal is the beginning of what the innocuous call writes, nothing else
+            got = executable(raw, style)
+            if got != base[:len(got)]:
+                out.append((f"{entry}:executable-words-changed:unencodable", f"style {style!r} text {text!r}: refused with {exc!r}, but wrote {raw!r} which executes {got} (innocuous comment: {base})",
+                            {"style": style, "entry": entry, "text": text, "first_style": first_style}))
+            continue
         if exc is not None or exc0 is not None:
             if type(exc) is not type(exc0):
                 out.append((f"{entry}:raised", f"style {style!r} text {text!r}: raised {exc!r} (innocuous text: {exc0!r})",
@@ -125,6 +135,7 @@ def run(tier, seed):
     for style in STYLES:
         for entry in ENTRIES:
             items.append((style, entry, 1, SPECIAL))
+            items.append((style, entry, 1, UNENCODABLE))
     # styles configured with surrounding blanks; a second live builder with another style (and precision, line ending, axis label)
     for style in STYLES:
         if style in ("(", "[", "/*", '"', "<", ";"):
